@@ -26,8 +26,10 @@ def dyadic_weights(rs, k, bits=5):
 CLT_DET = 0.0     # probability that a generated Chow-Liu leaf gets exact 0/1 table entries (set by C01/C02 only)
 
 
-def rand_clt(rs, scope):
+def rand_clt(rs, scope, permute=True):
     n = len(scope)
+    if permute and n > 1 and rs.rand() < 0.4:
+        scope = [int(v) for v in rs.permutation(list(scope))]      # variable ids by POSITION need not be ascending
     order = list(rs.permutation(n)); tree = [-1] * n
     for k in range(1, n):
         tree[order[k]] = int(order[rs.randint(0, k)])
